@@ -38,10 +38,13 @@ func (s *State) SpecDeliverTx(t chain.TxSpec, fee, reqFee int64, now time.Time, 
 	amt := big.NewInt(t.Amount)
 	min := big.NewInt(s.P.Min)
 	switch t.Msg {
-	case "send", "send_pool":
+	case "send", "send_pool", "send_module":
 		to := string(chain.Addr(t.To))
 		if t.Msg == "send_pool" {
 			to = chain.PoolAddr
+		}
+		if t.Msg == "send_module" {
+			to = chain.ModuleAddr(t.Key)
 		}
 		if t.Amount <= 0 {
 			out.Why = "non-positive amount"
